@@ -507,7 +507,7 @@ def _finish_rx(rnd, case, rx, p_ts):
     gas_lhs = any(sp[i - 1]['ph'] == 'G' for c, i in rx['lhs'])
     all_gas = all(sp[i - 1]['ph'] == 'G' for c, i in rx['lhs'] + rx['rhs'])
     rx['ads'] = bool(rx.get('ads', gas_lhs and not all_gas and rnd.random() < 0.6))
-    rx['stick'] = rnd.choice([0.5, 1., 0.1, round(rnd.uniform(0.001, 1.), 4)])
+    rx['stick'] = rnd.choice([0.5, 1., 0.1, 0., round(rnd.uniform(0.001, 1.), 4)])   # 0 is the lower end of the range (seed C06-11)
     rx['beta'] = rnd.choice([1., 0., 0.5, -1., 2., round(rnd.uniform(-2, 2), 2)])
     rx['ts'] = 0
     rx['ctor'] = 'from_string' if rnd.random() < 0.3 else 'direct'
@@ -730,7 +730,7 @@ def _exercised(cases, traces):
         'surf_file_without_reactions', 'runs_1', 'runs_8', 'frac_conditions_1', 'frac_conditions_8',
         'all_species_in_tube', 'all_defaults', 'newline_crlf', 'rx_given_as_list', 'rx_given_as_Reactions',
         'from_string_reactions', 'bep_transition_states', 'coefficient_3', 'same_species_both_sides',
-        'occupancy_above_1', 'stick_int_1', 'surface_rx_with_bulk_reactant', 'surface_rx_with_bulk_product',
+        'occupancy_above_1', 'stick_int_1', 'stick_zero', 'surface_rx_with_bulk_reactant', 'surface_rx_with_bulk_product',
         'A_species_witnesses', 'A_species_witnesses_with_bulk_reactant', 'A_species_witnesses_with_ts',
         'site_objs_shared_2plus_adsorbates', 'site_objs_separate_2plus_adsorbates',
         'site_objs_roundtrip_2plus_adsorbates', 'plus_sign_format_files_read_back')}
@@ -832,6 +832,7 @@ def _exercised(cases, traces):
                         ex['A_species_witnesses_with_ts'] += bool(w['hasQ'])
                         ex['A_species_witnesses_with_bulk_reactant'] += any(sp[i - 1]['bulk'] for c, i in r['lhs'])
         ex['occupancy_above_1'] += sum(x['occ'] > 1 for x in sp)
+        ex['stick_zero'] += sum(1 for r in case['rx'] if r['ads'] and r['stick'] == 0)
         ex['stick_int_1'] += sum(1 for r in case['rx'] if r['ads'] and r['stick'] == 1 and o.get('numkind') != 'float')
         ex['act_' + o['act']] += 1
         ex['ads_act_' + o['ads_act']] += 1
